@@ -38,7 +38,7 @@ Lemma writeAt_skel_ok : C14gen.writeAt_text = expected_writeAt_text. Proof. refl
 
 (* ------------------------------------------------------------------ 2. interpretation *)
 (* the integer locals: a record, so that states are compared syntactically *)
-Record vars := mkvars { v_x : Z; v_z : Z; v_need : Z; v_n : Z; v_now : Z; v_sec : Z; v_num : Z; v_length : Z; v_size : Z; v_i : Z; v_o : Z; v_s : Z; v_v : Z; v_offset : Z; v_timestamp : Z }.
+Record vars := mkvars { v_x : Z; v_z : Z; v_need : Z; v_n : Z; v_now : Z; v_sec : Z; v_num : Z; v_length : Z; v_size : Z; v_i : Z; v_o : Z; v_s : Z; v_v : Z; v_offset : Z; v_timestamp : Z; v_oldN : Z; v_oldNow : Z }.
 Definition getv (r : vars) (x : rvar) : Z :=
   match x with
   | Vx => v_x r
@@ -56,28 +56,32 @@ Definition getv (r : vars) (x : rvar) : Z :=
   | Vv => v_v r
   | Voffset => v_offset r
   | Vtimestamp => v_timestamp r
+  | VoldN => v_oldN r
+  | VoldNow => v_oldNow r
   | VlenData | Vtab => 0
   end.
 Definition setv (r : vars) (x : rvar) (a : Z) : vars :=
   match x with
-  | Vx => mkvars a (v_z r) (v_need r) (v_n r) (v_now r) (v_sec r) (v_num r) (v_length r) (v_size r) (v_i r) (v_o r) (v_s r) (v_v r) (v_offset r) (v_timestamp r)
-  | Vz => mkvars (v_x r) a (v_need r) (v_n r) (v_now r) (v_sec r) (v_num r) (v_length r) (v_size r) (v_i r) (v_o r) (v_s r) (v_v r) (v_offset r) (v_timestamp r)
-  | Vneed => mkvars (v_x r) (v_z r) a (v_n r) (v_now r) (v_sec r) (v_num r) (v_length r) (v_size r) (v_i r) (v_o r) (v_s r) (v_v r) (v_offset r) (v_timestamp r)
-  | Vn => mkvars (v_x r) (v_z r) (v_need r) a (v_now r) (v_sec r) (v_num r) (v_length r) (v_size r) (v_i r) (v_o r) (v_s r) (v_v r) (v_offset r) (v_timestamp r)
-  | Vnow => mkvars (v_x r) (v_z r) (v_need r) (v_n r) a (v_sec r) (v_num r) (v_length r) (v_size r) (v_i r) (v_o r) (v_s r) (v_v r) (v_offset r) (v_timestamp r)
-  | Vsec => mkvars (v_x r) (v_z r) (v_need r) (v_n r) (v_now r) a (v_num r) (v_length r) (v_size r) (v_i r) (v_o r) (v_s r) (v_v r) (v_offset r) (v_timestamp r)
-  | Vnum => mkvars (v_x r) (v_z r) (v_need r) (v_n r) (v_now r) (v_sec r) a (v_length r) (v_size r) (v_i r) (v_o r) (v_s r) (v_v r) (v_offset r) (v_timestamp r)
-  | Vlength => mkvars (v_x r) (v_z r) (v_need r) (v_n r) (v_now r) (v_sec r) (v_num r) a (v_size r) (v_i r) (v_o r) (v_s r) (v_v r) (v_offset r) (v_timestamp r)
-  | Vsize => mkvars (v_x r) (v_z r) (v_need r) (v_n r) (v_now r) (v_sec r) (v_num r) (v_length r) a (v_i r) (v_o r) (v_s r) (v_v r) (v_offset r) (v_timestamp r)
-  | Vi => mkvars (v_x r) (v_z r) (v_need r) (v_n r) (v_now r) (v_sec r) (v_num r) (v_length r) (v_size r) a (v_o r) (v_s r) (v_v r) (v_offset r) (v_timestamp r)
-  | Vo => mkvars (v_x r) (v_z r) (v_need r) (v_n r) (v_now r) (v_sec r) (v_num r) (v_length r) (v_size r) (v_i r) a (v_s r) (v_v r) (v_offset r) (v_timestamp r)
-  | Vs => mkvars (v_x r) (v_z r) (v_need r) (v_n r) (v_now r) (v_sec r) (v_num r) (v_length r) (v_size r) (v_i r) (v_o r) a (v_v r) (v_offset r) (v_timestamp r)
-  | Vv => mkvars (v_x r) (v_z r) (v_need r) (v_n r) (v_now r) (v_sec r) (v_num r) (v_length r) (v_size r) (v_i r) (v_o r) (v_s r) a (v_offset r) (v_timestamp r)
-  | Voffset => mkvars (v_x r) (v_z r) (v_need r) (v_n r) (v_now r) (v_sec r) (v_num r) (v_length r) (v_size r) (v_i r) (v_o r) (v_s r) (v_v r) a (v_timestamp r)
-  | Vtimestamp => mkvars (v_x r) (v_z r) (v_need r) (v_n r) (v_now r) (v_sec r) (v_num r) (v_length r) (v_size r) (v_i r) (v_o r) (v_s r) (v_v r) (v_offset r) a
+  | Vx => mkvars a (v_z r) (v_need r) (v_n r) (v_now r) (v_sec r) (v_num r) (v_length r) (v_size r) (v_i r) (v_o r) (v_s r) (v_v r) (v_offset r) (v_timestamp r) (v_oldN r) (v_oldNow r)
+  | Vz => mkvars (v_x r) a (v_need r) (v_n r) (v_now r) (v_sec r) (v_num r) (v_length r) (v_size r) (v_i r) (v_o r) (v_s r) (v_v r) (v_offset r) (v_timestamp r) (v_oldN r) (v_oldNow r)
+  | Vneed => mkvars (v_x r) (v_z r) a (v_n r) (v_now r) (v_sec r) (v_num r) (v_length r) (v_size r) (v_i r) (v_o r) (v_s r) (v_v r) (v_offset r) (v_timestamp r) (v_oldN r) (v_oldNow r)
+  | Vn => mkvars (v_x r) (v_z r) (v_need r) a (v_now r) (v_sec r) (v_num r) (v_length r) (v_size r) (v_i r) (v_o r) (v_s r) (v_v r) (v_offset r) (v_timestamp r) (v_oldN r) (v_oldNow r)
+  | Vnow => mkvars (v_x r) (v_z r) (v_need r) (v_n r) a (v_sec r) (v_num r) (v_length r) (v_size r) (v_i r) (v_o r) (v_s r) (v_v r) (v_offset r) (v_timestamp r) (v_oldN r) (v_oldNow r)
+  | Vsec => mkvars (v_x r) (v_z r) (v_need r) (v_n r) (v_now r) a (v_num r) (v_length r) (v_size r) (v_i r) (v_o r) (v_s r) (v_v r) (v_offset r) (v_timestamp r) (v_oldN r) (v_oldNow r)
+  | Vnum => mkvars (v_x r) (v_z r) (v_need r) (v_n r) (v_now r) (v_sec r) a (v_length r) (v_size r) (v_i r) (v_o r) (v_s r) (v_v r) (v_offset r) (v_timestamp r) (v_oldN r) (v_oldNow r)
+  | Vlength => mkvars (v_x r) (v_z r) (v_need r) (v_n r) (v_now r) (v_sec r) (v_num r) a (v_size r) (v_i r) (v_o r) (v_s r) (v_v r) (v_offset r) (v_timestamp r) (v_oldN r) (v_oldNow r)
+  | Vsize => mkvars (v_x r) (v_z r) (v_need r) (v_n r) (v_now r) (v_sec r) (v_num r) (v_length r) a (v_i r) (v_o r) (v_s r) (v_v r) (v_offset r) (v_timestamp r) (v_oldN r) (v_oldNow r)
+  | Vi => mkvars (v_x r) (v_z r) (v_need r) (v_n r) (v_now r) (v_sec r) (v_num r) (v_length r) (v_size r) a (v_o r) (v_s r) (v_v r) (v_offset r) (v_timestamp r) (v_oldN r) (v_oldNow r)
+  | Vo => mkvars (v_x r) (v_z r) (v_need r) (v_n r) (v_now r) (v_sec r) (v_num r) (v_length r) (v_size r) (v_i r) a (v_s r) (v_v r) (v_offset r) (v_timestamp r) (v_oldN r) (v_oldNow r)
+  | Vs => mkvars (v_x r) (v_z r) (v_need r) (v_n r) (v_now r) (v_sec r) (v_num r) (v_length r) (v_size r) (v_i r) (v_o r) a (v_v r) (v_offset r) (v_timestamp r) (v_oldN r) (v_oldNow r)
+  | Vv => mkvars (v_x r) (v_z r) (v_need r) (v_n r) (v_now r) (v_sec r) (v_num r) (v_length r) (v_size r) (v_i r) (v_o r) (v_s r) a (v_offset r) (v_timestamp r) (v_oldN r) (v_oldNow r)
+  | Voffset => mkvars (v_x r) (v_z r) (v_need r) (v_n r) (v_now r) (v_sec r) (v_num r) (v_length r) (v_size r) (v_i r) (v_o r) (v_s r) (v_v r) a (v_timestamp r) (v_oldN r) (v_oldNow r)
+  | Vtimestamp => mkvars (v_x r) (v_z r) (v_need r) (v_n r) (v_now r) (v_sec r) (v_num r) (v_length r) (v_size r) (v_i r) (v_o r) (v_s r) (v_v r) (v_offset r) a (v_oldN r) (v_oldNow r)
+  | VoldN => mkvars (v_x r) (v_z r) (v_need r) (v_n r) (v_now r) (v_sec r) (v_num r) (v_length r) (v_size r) (v_i r) (v_o r) (v_s r) (v_v r) (v_offset r) (v_timestamp r) a (v_oldNow r)
+  | VoldNow => mkvars (v_x r) (v_z r) (v_need r) (v_n r) (v_now r) (v_sec r) (v_num r) (v_length r) (v_size r) (v_i r) (v_o r) (v_s r) (v_v r) (v_offset r) (v_timestamp r) (v_oldN r) a
   | VlenData | Vtab => r
   end.
-Definition vars0 : vars := mkvars 0 0 0 0 0 0 0 0 0 0 0 0 0 0 0.
+Definition vars0 : vars := mkvars 0 0 0 0 0 0 0 0 0 0 0 0 0 0 0 0 0.
 
 (* the Region object: Model.C14.st, field by field *)
 Definition st_offs (s : st) x := {| offs := x; tss := tss s; used := used s; hwm := hwm s; img := img s |}.
@@ -164,6 +168,8 @@ Fixpoint exec (s : sem_stmt) (ret : string -> ist -> res) (k : ist -> res) (σ :
   if g_err σ then
     match s with
     | SErrCheck t => ret t σ
+    | SErrDo t body =>       (* the body runs with err set aside, then the return delivers it *)
+        sq (fun s k => exec s ret k) body (fun σ' => ret t (set_err σ' true)) (set_err σ false)
     | SRet t => ret t σ
     | _ => RStuck
     end
@@ -245,6 +251,7 @@ Fixpoint exec (s : sem_stmt) (ret : string -> ist -> res) (k : ist -> res) (σ :
   | SEff0 EVarBuf _ => k (set_buf σ [0; 0; 0; 0])
   | SEff0 EVarLength _ => k (setl σ Vlength 0%Z)
   | SErrCheck _ => k σ
+  | SErrDo _ _ => k σ
   | SRet t => ret t σ
   | SRetBool _ c => RBool (c (look σ))
   end.
